@@ -14,7 +14,14 @@ else:
     subprocess.run(["git", "-C", wt, "merge", "-q", "--ff-only", "main"], check=True)
 subprocess.run(["rsync", "-a", "--delete", "/verif/lean/.lake/", f"{wt}/lean/.lake/"])
 os.makedirs(f"{wt}/.work/bin", exist_ok=True)
+import glob
+touched=set()
+for f in glob.glob(f'/verif/seeded/{pid}-*/meta.json'):
+    touched.update(json.load(open(f)).get('touched',[]))
+anch=[json.loads(l) for l in open('/verif/properties.jsonl') if l.strip()]
+anch=[d for d in anch if d['id']==pid][0]['anchors']['files']
+unt=[f for f in anch if f not in touched] or ['none: every anchored file has been hit; use functions no seeded patch touches']
 tmpl = open('/verif/tools/agent_prompt5.txt').read()
 t = "\n".join(f"  {i+1}. {x}" for i, x in enumerate(tasks))
-open(f"/wt/prompts/{pid}-r5.txt", "w").write(tmpl.replace("{PID}", pid).replace("{pid}", pid.lower()).replace("{WT}", wt).replace("{TASKS}", t))
+open(f"/wt/prompts/{pid}-r5.txt", "w").write(tmpl.replace("{PID}", pid).replace("{pid}", pid.lower()).replace("{WT}", wt).replace("{TASKS}", t).replace("{UNTOUCHED}", ", ".join(unt)))
 print("prepared", pid)
